@@ -7,6 +7,7 @@ import (
 	"time"
 
 	"github.com/Trisia/randomness/detect"
+	"github.com/Trisia/randomness/simrt"
 	"github.com/Trisia/randomness/simrt/simctl"
 )
 
@@ -81,7 +82,7 @@ func NameItem(msg string) int {
 // deliberately far above what any reasonable implementation needs.
 func StepBudget(c *RunConfig) int {
 	pre := 0
-	for _, p := range c.Prelude {
+	for _, p := range append(append([]PreludeSpec(nil), c.Prelude...), c.Companion...) {
 		pre += 2*p.NumByte + 2000
 		if p.Workflow != WSingle {
 			pre += Info(p.Workflow).Samples*48 + 14*c.Workers + 400
@@ -203,6 +204,21 @@ func Execute(t *testing.T, cfg *RunConfig) *Outcome {
 		if shared != nil {
 			shared.set(handed)
 			handed = shared
+		}
+		for _, co := range cfg.Companion {
+			cc := RunConfig{Workflow: co.Workflow, NumByte: co.NumByte, Stream: co.Stream, Chunk: ChunkSpec{Kind: "full"}, Fault: co.Fault, ReadYield: 1}
+			if cc.Fault.Kind == "" {
+				cc.Fault.Kind = "none"
+			}
+			cst := BuildStream(co.Stream, cc.Required())
+			csrc := NewSimSource(cst, &cc, true)
+			ct := simrt.Child("companion")
+			if ct == nil {
+				continue
+			}
+			rs.addCompanion(ct.ID)
+			wf, nb := co.Workflow, co.NumByte
+			go simrt.RunTask(ct, func() { callWorkflow(wf, csrc, nb) })
 		}
 		v, err := callWorkflow(cfg.Workflow, handed, cfg.NumByte)
 		out.Verdict = v
